@@ -704,3 +704,62 @@ package router
 //@   modifies owned[pkt], heldCount
 //@   gset heldCount := old(heldCount) - 1
 //@   ensures !owned[pkt]
+
+//@ # ownership transfer through the Link interface: a successful Send gives the packet away, a refused one does not
+//@ iface Link.Send
+//@   requires owned[p]
+//@   modifies owned[p], heldCount, *p
+//@   ensures owned[p] == !result
+//@   ensures heldCount == old(heldCount) - ite(result, 1, 0)
+//@ iface Link.SendBlocking
+//@   requires owned[p]
+//@   modifies owned[p], heldCount, *p
+//@   ensures !owned[p] && heldCount == old(heldCount) - 1
+//@ iface Link.Metrics
+//@   modifies nothing
+//@ # a processing stage: takes packets from its queue (acquiring them), and before taking the next one has given
+//@ # each away exactly once - to the slow-path queue, to a link, or back to the pool. The processing itself
+//@ # (processPkt, C01-C13) neither returns nor forwards the packet.
+//@ func (*dataPlane).runProcessor
+//@   props C14
+//@   nosafety
+//@   opaque newPacketProcessor (*scionPacketProcessor).processPkt
+//@   callmod newPacketProcessor: nothing
+//@   callmod (*scionPacketProcessor).processPkt: *p
+//@   requires d != nil && heldCount == 0
+//@   requires forall q *Packet :: !owned[q]
+//@   onrecv assume v != nil && !owned[v]
+//@   onrecv gset owned[v] := true
+//@   onrecv gset heldCount := heldCount + 1
+//@   onsend requires owned[v]
+//@   onsend gset owned[v] := false
+//@   onsend gset heldCount := heldCount - 1
+//@   loop 1 invariant heldCount == 0
+//@   loop 1 invariant forall q *Packet :: !owned[q]
+//@   ensures heldCount == 0
+//@ func (*dataPlane).runSlowPathProcessor
+//@   props C14
+//@   nosafety
+//@   opaque newSlowPathProcessor (*slowPathPacketProcessor).processPacket
+//@   callmod newSlowPathProcessor: nothing
+//@   callmod (*slowPathPacketProcessor).processPacket: *p
+//@   requires d != nil && heldCount == 0
+//@   requires forall q *Packet :: !owned[q]
+//@   onrecv assume v != nil && !owned[v]
+//@   onrecv gset owned[v] := true
+//@   onrecv gset heldCount := heldCount + 1
+//@   loop 1 invariant heldCount == 0
+//@   loop 1 invariant forall q *Packet :: !owned[q]
+//@   ensures heldCount == 0
+//@ # a BFD packet: taken from the pool, handed to the link or returned. (If serialization of the fixed SCION+BFD
+//@ # layers failed the buffer would not be returned; that return path is not covered by the postcondition.)
+//@ extern github.com/gopacket/gopacket.SerializeLayers
+//@   modifies nothing
+//@ func (*bfdSend).Send
+//@   props C14
+//@   nosafety
+//@   opaque github.com/scionproto/scion/pkg/slayers/path.MAC
+//@   callmod github.com/scionproto/scion/pkg/slayers/path.MAC: nothing
+//@   requires b != nil
+//@   ensures result == nil ==> heldCount == old(heldCount)
+//@   ensures result == nil ==> forall q *Packet :: old(owned[q]) ==> owned[q]
